@@ -85,7 +85,9 @@ UNIT_INV = {("InfraHardware", "raw_nb_of_instances"): "dimensionless", ("InfraHa
 # link attributes: (class, attr) -> target class ; list links: (class, attr) -> (element class, unordered)
 LINKS = {("Job", "server"): "Server", ("ServerBase", "storage"): "Storage", ("UsagePattern", "usage_journey"): "UsageJourney",
          ("UsagePattern", "network"): "Network", ("UsagePattern", "country"): "Country", ("ServiceJob", "service"): "Service",
-         ("Service", "server"): "Server", ("JobBase", "server"): "Server"}
+         ("Service", "server"): "Server",
+         ("VideoStreamingJob", "service"): "VideoStreaming", ("WebApplicationJob", "service"): "WebApplication", ("GenAIJob", "service"): "GenAIModel",
+         ("GenAIModel", "server"): "GPUServer"}
 LISTS = {("UsagePattern", "devices"): ("Device", False), ("UsageJourney", "uj_steps"): ("UsageJourneyStep", False),
          ("UsageJourneyStep", "jobs"): ("JobBase", False), ("System", "usage_patterns"): ("UsagePattern", False)}
 # reverse look-ups (set-derived: order unspecified, duplicate free). Verified against the link relation in the C16 check.
@@ -255,6 +257,7 @@ class World:
         if n == "create_hourly_usage_df_from_list":
             return ("repo_function", "efootprint.builders.time_builders.create_hourly_usage_df_from_list")
         if n in ("ServerTypes",): return IP.ClassRef(n)
+        if n == "Sources": return Opaque("Sources")
         return None
 
     def model_eq(self, I, a, b):
@@ -341,7 +344,7 @@ class World:
                 return v
             if "ExplainableObject" in str(ann):
                 payload = Opaque("input-object", (o.family, name))
-                if name == "server_type" and getattr(o, "variant", None): payload = o.variant
+                if name in ("server_type", "resolution") and getattr(o, "variant", None): payload = o.variant
                 v = Expl("eo", payload, Label(True, name), attached=o.key(name), fresh_obj=False,
                          source=Opaque("source", name))
                 o.attrs[name] = v
